@@ -98,6 +98,36 @@ def run(repo: Repo, rep: Report) -> None:
     from checks.c05 import xmlns_agreement
 
     xmlns_agreement(repo, rep, "C03.c-rdfxml-prefixes-declared-as-used")
+    mark_before_descend(repo, rep)
+
+
+def mark_before_descend(repo: Repo, rep: Report) -> None:
+    """(e) recursive Turtle-family writers mark a node done before they write its description"""
+    from vlib.cfg import CFG
+
+    rep.rule("C03.e-node-marked-done-before-its-description",
+             "in the recursive Turtle-family serializers (turtle, n3, longturtle) a method that both marks a node (`self.subjectDone(x)`) and writes its description "
+             "(`self.predicateList(x)`, `self.s_squared(x)`, `self.s_default(x)`, `self.s_clause(x)`) marks it first on every path: p_squared refuses to "
+             "inline a node that is marked, and that is what keeps a blank-node cycle from being written inside itself (and a statement from being lost or repeated)", floor=5)
+    DESCR = {"predicateList", "s_squared", "s_default", "s_clause"}  # doList marks every cell itself
+    for modname in ("rdflib.plugins.serializers.turtle", "rdflib.plugins.serializers.n3", "rdflib.plugins.serializers.longturtle"):
+        mod = repo.mod(modname)
+        for q, f in mod.functions():
+            marks = [c for c in own_nodes(f) if isinstance(c, ast.Call) and norm(c.func) == "self.subjectDone" and c.args]
+            if not marks:
+                continue
+            g = None
+            for c in own_nodes(f):
+                if isinstance(c, ast.Call) and isinstance(c.func, ast.Attribute) and norm(c.func.value) == "self" and c.func.attr in DESCR and c.args:
+                    x = norm(c.args[0])
+                    ms = [m for m in marks if norm(m.args[0]) == x]
+                    if not ms:
+                        continue
+                    g = g or CFG(f)
+                    ok = g.must_pass_before(g.node_of(c, mod), [g.node_of(m, mod) for m in ms]) and not any(g.node_of(m, mod) == g.node_of(c, mod) and m.lineno > c.lineno for m in ms)
+                    rep.ob("C03.e-node-marked-done-before-its-description", mod, q, c, ok,
+                           "subjectDone(%s) precedes" % x if ok else
+                           "%s can run before self.subjectDone(%s): while %s's own property list is being written it is not yet marked, so a blank-node path that leads back to it inlines it again" % (norm(c), x, x), node=c)
 
 
 def escape_table_rules(repo: Repo, rep: Report, RULE: str) -> None:
